@@ -62,6 +62,7 @@ type Contract struct {
 	HasMod    bool
 	Decreases *Clause
 	MayPanic  bool
+	UncheckedPanics bool
 	Pure      bool
 	Trusted   bool
 	Opaque    bool // never inline, even without ensures
@@ -161,7 +162,7 @@ func NewContractSet() *ContractSet {
 
 var reFuncHdr = regexp.MustCompile(`^func\s+(?:\(([^)]*)\)\s*)?([A-Za-z_$][\w$.\[\],]*)`)
 var rePropLabel = regexp.MustCompile(`^\s*((?:C\d+,?)+/)?([A-Za-z_][\w\-.]*)\s*:\s+`)
-var keywords = []string{"iterates", "at", "call", "preserves", "guarded", "captures", "nonnilpkg", "immutable", "assumes", "typeinv", "purepkg", "noreturn", "func", "iface", "props", "requires", "ensures", "modifies", "decreases", "may_panic", "no_panic", "pure", "trusted", "opaque", "inline", "loop", "ghost", "spec", "define", "axiom", "package"}
+var keywords = []string{"iterates", "at", "call", "preserves", "guarded", "captures", "nonnilpkg", "immutable", "assumes", "typeinv", "purepkg", "noreturn", "func", "iface", "props", "requires", "ensures", "modifies", "decreases", "may_panic", "unchecked_panics", "no_panic", "pure", "trusted", "opaque", "inline", "loop", "ghost", "spec", "define", "axiom", "package"}
 
 func startsWithKeyword(s string) string {
 	for _, k := range keywords {
@@ -472,6 +473,12 @@ func (cs *ContractSet) LoadFile(path, pkg string, trusted bool) {
 				cur.Decreases = parseClause(rest, l.line)
 			case "may_panic":
 				cur.MayPanic = true
+			case "unchecked_panics":
+				// partial correctness only: the run-time panics of this function (nil, index, slice,
+				// division, ...) are NOT checked, and explicit ones are allowed (listed as an assumption).
+				// Callers are not told "may panic": for them it is what an unverified stub was before,
+				// a callee ASSUMED not to panic - the evidence says so.
+				cur.UncheckedPanics = true
 			case "no_panic":
 			case "pure":
 				cur.Pure = true
